@@ -1,4 +1,5 @@
 import MsPack.Lzss.Decoder
+import MsPack.Spec.Lzss
 /-
 LZSS (lzssd.c) round trip, lemmas: the token-level specification (`Tok`, `Ring`, `expand`), the
 byte coding (`encode`), and what each piece of the decoder model does on a fault-free file source
@@ -7,42 +8,6 @@ for every input-buffer size ≥ 1, i.e. wherever the buffer refills fall.
 -/
 namespace MsPack.Lzss
 open MsPack MsPack.Generated
-
-/-! ## specification -/
-
-/-- an LZSS token: a literal byte, or a copy of `len` (3..18) bytes from ring position `mpos` -/
-inductive Tok where
-  | lit (b : UInt8)
-  | mat (mpos len : Nat)
-  deriving Repr, DecidableEq
-
-def Tok.isLit : Tok → Bool | .lit _ => true | .mat .. => false
-
-def Tok.wf : Tok → Prop
-  | .lit _ => True
-  | .mat mpos len => mpos < 4096 ∧ 3 ≤ len ∧ len ≤ 18
-
-/-- the 4096-byte ring, the write position, and everything output so far -/
-structure Ring where
-  window : Array UInt8
-  pos    : Nat
-  out    : Array UInt8
-
-def Ring.emit (r : Ring) (b : UInt8) : Ring :=
-  ⟨r.window.setIfInBounds r.pos b, (r.pos + 1) % 4096, r.out.push b⟩
-
-/-- byte-by-byte copy (an overlapping copy repeats what it has just written) -/
-def Ring.copy : Nat → Nat → Ring → Ring
-  | 0, _, r => r
-  | n + 1, mpos, r => Ring.copy n ((mpos + 1) % 4096) (r.emit (r.window.getD mpos 0))
-
-def Ring.apply (r : Ring) : Tok → Ring
-  | .lit b => r.emit b
-  | .mat mpos len => Ring.copy len mpos r
-
-def expand (toks : List Tok) (r : Ring) : Ring := toks.foldl Ring.apply r
-
-def Ring.ok (r : Ring) : Prop := r.window.size = 4096 ∧ r.pos < 4096
 
 theorem Ring.emit_ok {r : Ring} (h : r.ok) (b : UInt8) : (r.emit b).ok := by
   refine ⟨?_, Nat.mod_lt _ (by decide)⟩
@@ -60,30 +25,6 @@ theorem Ring.apply_ok {r : Ring} (h : r.ok) (t : Tok) : (r.apply t).ok := by
 theorem expand_ok : ∀ (toks : List Tok) {r : Ring}, r.ok → (expand toks r).ok
   | [], _, h => h
   | t :: ts, _, h => expand_ok ts (Ring.apply_ok h t)
-
-/-! ## coding -/
-
-/-- literal: the byte; match: low 8 bits of the position, then high 4 bits of the position in the
-    high nibble and length - 3 in the low nibble -/
-def Tok.bytes : Tok → Bytes
-  | .lit b => [b]
-  | .mat mpos len => [UInt8.ofNat (mpos % 256), UInt8.ofNat (mpos / 256 * 16 + (len - 3))]
-
-/-- control byte of a group: bit `i` set = token `i` is a literal -/
-def ctrl : List Tok → Nat
-  | [] => 0
-  | t :: ts => (if t.isLit then 1 else 0) + 2 * ctrl ts
-
-def encodeGroup (g : List Tok) : Bytes := UInt8.ofNat (ctrl g) :: g.flatMap Tok.bytes
-
-/-- groups of eight tokens, the last one possibly shorter -/
-def encode (toks : List Tok) : Bytes :=
-  if h : toks = [] then [] else encodeGroup (toks.take 8) ++ encode (toks.drop 8)
-termination_by toks.length
-decreasing_by
-  cases toks with
-  | nil => exact absurd rfl h
-  | cons a as => simp only [List.length_drop, List.length_cons]; omega
 
 theorem ctrl_lt : ∀ (g : List Tok), ctrl g < 2 ^ g.length
   | [] => by simp [ctrl]
